@@ -40,6 +40,49 @@ type opSpec struct {
 	Rag    bool   `json:"rag,omitempty"`
 	HasUpd bool   `json:"hu,omitempty"`
 	Upd    int64  `json:"upd,omitempty"`
+	// Src: where the []byte handed to Set comes from (sequential segments of the memory cache only; "" = a fresh slice):
+	// "g" = the very slice the last successful Get returned, "p" = one payload slice shared by several Sets,
+	// "c" = a sub-slice carved from one arena, with spare capacity reaching into the values carved after it.
+	// The model stays a value-semantics map: V is the number the bytes spell at the moment of the call.
+	Src string `json:"src,omitempty"`
+}
+
+// valSrc hands out the aliased value slices of one run.  The harness never writes into a slice after it has been
+// handed to Set (the pinned code retains the caller's slice and returns its internal slice, so caller-side writes
+// would show through by construction and are not part of the property); only the cache's own writes can change them.
+type valSrc struct {
+	lastGet []byte
+	payload []byte
+	arena   []byte
+	off     int
+}
+
+func (vs *valSrc) value(o *opSpec) []byte {
+	switch o.Src {
+	case "g":
+		if vs.lastGet != nil {
+			o.V = decVal(vs.lastGet)
+			return vs.lastGet
+		}
+	case "p":
+		if vs.payload == nil {
+			vs.payload = encVal(o.V)
+		}
+		o.V = decVal(vs.payload)
+		return vs.payload
+	case "c":
+		b := encVal(o.V)
+		if vs.arena == nil {
+			vs.arena = make([]byte, 0, 96)
+		}
+		if vs.off+len(b) <= cap(vs.arena) {
+			region := vs.arena[vs.off : vs.off+len(b)]
+			copy(region, b)
+			vs.off += len(b)
+			return region
+		}
+	}
+	return encVal(o.V)
 }
 
 type seg struct {
@@ -105,6 +148,25 @@ func mapErr(err error, okKind int) result {
 func execOp(c cache.TTLCache, o opSpec) (r result) { return execOpCtx(context.Background(), c, o) }
 
 func execOpCtx(ctx context.Context, c cache.TTLCache, o opSpec) (r result) {
+	r, _ = execOpV(ctx, c, o, nil)
+	return
+}
+
+// execSrc runs one step of a sequential segment with the value slice chosen by vs; it returns the op with the value
+// actually passed and remembers the slice a successful Get handed out
+func execSrc(c cache.TTLCache, o opSpec, vs *valSrc) (opSpec, result) {
+	var val []byte
+	if o.Kind == "S" {
+		val = vs.value(&o)
+	}
+	r, raw := execOpV(context.Background(), c, o, val)
+	if o.Kind == "G" && r.kind == rOk {
+		vs.lastGet = raw
+	}
+	return o, r
+}
+
+func execOpV(ctx context.Context, c cache.TTLCache, o opSpec, val []byte) (r result, raw []byte) {
 	defer func() {
 		if p := recover(); p != nil {
 			r = result{rFail, 99}
@@ -122,7 +184,10 @@ func execOpCtx(ctx context.Context, c cache.TTLCache, o opSpec) (r result) {
 		if o.Keep {
 			fns = append(fns, cache.WithKeepTTL())
 		}
-		return mapErr(c.Set(ctx, keyNames[o.K], encVal(o.V), fns...), rDone)
+		if val == nil {
+			val = encVal(o.V)
+		}
+		return mapErr(c.Set(ctx, keyNames[o.K], val, fns...), rDone), nil
 	case "G":
 		var fns []cache.GetOptFn
 		if o.Rag {
@@ -133,16 +198,16 @@ func execOpCtx(ctx context.Context, c cache.TTLCache, o opSpec) (r result) {
 		}
 		v, err := c.Get(ctx, keyNames[o.K], fns...)
 		if err == nil {
-			return result{rOk, decVal(v)}
+			return result{rOk, decVal(v)}, v
 		}
-		return mapErr(err, rOk)
+		return mapErr(err, rOk), nil
 	case "R":
-		return mapErr(c.Remove(ctx, keyNames[o.K]), rDone)
+		return mapErr(c.Remove(ctx, keyNames[o.K]), rDone), nil
 	case "C":
 		c.Clear(ctx)
-		return result{rDone, 0}
+		return result{rDone, 0}, nil
 	}
-	return result{rFail, 98}
+	return result{rFail, 98}, nil
 }
 
 type obs struct {
@@ -310,12 +375,13 @@ func runMem(h *histSpec) (steps, probe []obs, witnessMissing bool) {
 	}
 	var segs []segObs
 	hasPar := false
+	vs := &valSrc{}
 	for _, s := range h.Segs {
-		so := segObs{par: s.Par && len(s.Ops) > 1, ops: s.Ops, res: make([]result, len(s.Ops))}
+		so := segObs{par: s.Par && len(s.Ops) > 1, ops: append([]opSpec{}, s.Ops...), res: make([]result, len(s.Ops))}
 		if !so.par {
 			for i, o := range s.Ops {
 				setClock(o.Now)
-				so.res[i] = execOp(c, o)
+				so.ops[i], so.res[i] = execSrc(c, o, vs)
 			}
 			segs = append(segs, so)
 			continue
@@ -535,10 +601,12 @@ func runRds(e *vh.Env, h *histSpec) (steps []obs) {
 	r := cache.NewTTLRdsCache(cl, rdsPrefix, h.Dttl)
 	by := newBystanders(f, cl, h)
 	defer by.finish(e, h)
+	vs := &valSrc{}
 	for _, s := range h.Segs {
 		for _, o := range s.Ops {
 			setClock(o.Now)
-			a := execOp(m, o)
+			// the memory cache gets the aliased slice, redis a fresh slice spelling the same number
+			o, a := execSrc(m, o, vs)
 			f.take()
 			b := execOp(r, o)
 			cmds := coqCmds(f.take())
@@ -806,6 +874,14 @@ func descOp(o opSpec) string {
 		if o.Keep {
 			s += " keep-ttl"
 		}
+		switch o.Src {
+		case "g":
+			s += " [value = the slice the last Get returned]"
+		case "p":
+			s += " [value = the payload slice shared by several Sets]"
+		case "c":
+			s += " [value = sub-slice of one arena, spare capacity behind it]"
+		}
 		return s
 	case "G":
 		s := fmt.Sprintf("t=%d Get k%s", o.Now, k)
@@ -954,6 +1030,7 @@ type profile struct {
 	backwards          float64 // probability that a clock step goes backwards (out of the property's quantifier)
 	starts             []int64
 	restricted         bool // steer into the class compared with redis
+	pAlias             float64 // probability that a Set hands over an aliased slice (Src g / p / c)
 }
 
 func pick(e *vh.Env, xs []int64) int64 { return xs[e.Rnd.Intn(len(xs))] }
@@ -1019,6 +1096,9 @@ func (g *gen) op() opSpec {
 		}
 		o.Mne = g.e.Rnd.Float64() < p.pMne
 		o.Keep = g.e.Rnd.Float64() < p.pKeep
+		if g.e.Rnd.Float64() < p.pAlias {
+			o.Src = []string{"g", "g", "p", "c"}[g.e.Rnd.Intn(4)]
+		}
 		t := g.dttl
 		if o.HasTTL {
 			t = o.TTL
@@ -1088,23 +1168,23 @@ func (g *gen) history() *histSpec {
 }
 
 var (
-	pMixed = profile{class: "mem-mixed", sizes: []int64{0, 1, 2, 2, 3, 4}, dttls: []int64{-1, 0, 2, 5}, nkeys: 5, minLen: 6, maxLen: 30,
+	pMixed = profile{pAlias: 0.3, class: "mem-mixed", sizes: []int64{0, 1, 2, 2, 3, 4}, dttls: []int64{-1, 0, 2, 5}, nkeys: 5, minLen: 6, maxLen: 30,
 		ttls: []int64{-2, 0, 1, 2, 3, 7}, upds: []int64{-2, 0, 1, 4}, pTTL: 0.5, pMne: 0.25, pKeep: 0.25, pRag: 0.2, pUpd: 0.3,
 		wSet: 45, wGet: 40, wR: 9, wC: 3, pStay: 0.4, pDeadline: 0.35, starts: []int64{0, 100, 1700000000}}
-	pLru = profile{class: "mem-lru", sizes: []int64{1, 2, 3, 3, 4}, dttls: []int64{0, 50}, nkeys: 6, minLen: 8, maxLen: 36,
+	pLru = profile{pAlias: 0.3, class: "mem-lru", sizes: []int64{1, 2, 3, 3, 4}, dttls: []int64{0, 50}, nkeys: 6, minLen: 8, maxLen: 36,
 		ttls: []int64{40, 60}, upds: []int64{0, 30}, pTTL: 0.2, pMne: 0.15, pKeep: 0.1, pRag: 0.08, pUpd: 0.1,
 		wSet: 50, wGet: 45, wR: 4, wC: 1, pStay: 0.7, pDeadline: 0.02, starts: []int64{10}}
-	pExpiry = profile{class: "mem-expiry", sizes: []int64{3, 8}, dttls: []int64{-1, 0, 3, 4}, nkeys: 4, minLen: 8, maxLen: 30,
+	pExpiry = profile{pAlias: 0.25, class: "mem-expiry", sizes: []int64{3, 8}, dttls: []int64{-1, 0, 3, 4}, nkeys: 4, minLen: 8, maxLen: 30,
 		ttls: []int64{1, 2, 3, 5, 0}, upds: []int64{0, 1, 2, 6, -1}, pTTL: 0.6, pMne: 0.3, pKeep: 0.4, pRag: 0.15, pUpd: 0.4,
 		wSet: 45, wGet: 45, wR: 6, wC: 2, pStay: 0.3, pDeadline: 0.5, starts: []int64{5, 1000}}
 	pOdd = profile{class: "mem-odd", sizes: []int64{-1, -5, 0, 1, 2, math.MaxInt64}, dttls: []int64{math.MinInt64, -1, 0, 3, math.MaxInt64}, nkeys: 4, minLen: 5, maxLen: 20,
 		ttls:  []int64{math.MaxInt64, math.MaxInt64 - 10, math.MinInt64, 1 << 62, 2, 0},
 		upds:  []int64{math.MaxInt64, math.MinInt64, 1 << 62, 0, 1}, pTTL: 0.6, pMne: 0.25, pKeep: 0.25, pRag: 0.2, pUpd: 0.4,
 		wSet: 45, wGet: 40, wR: 8, wC: 4, pStay: 0.3, pDeadline: 0.3, backwards: 0.5, starts: []int64{-50, 0, 7, math.MaxInt64 - 40, math.MinInt64 + 3}}
-	pRdsRestricted = profile{class: "rds-restricted", sizes: []int64{5, 5, 6, 64}, dttls: []int64{2, 3, 10}, nkeys: 5, minLen: 8, maxLen: 30,
+	pRdsRestricted = profile{pAlias: 0.25, class: "rds-restricted", sizes: []int64{5, 5, 6, 64}, dttls: []int64{2, 3, 10}, nkeys: 5, minLen: 8, maxLen: 30,
 		ttls: []int64{1, 2, 3, 5, 30, tmax}, upds: []int64{0, 1, 2, 6}, pTTL: 0.5, pMne: 0.3, pKeep: 0.35, pRag: 0.2, pUpd: 0.35,
 		wSet: 45, wGet: 42, wR: 8, wC: 5, pStay: 0.35, pDeadline: 0.45, starts: []int64{0, 100, 1700000000}, restricted: true}
-	pRdsFree = profile{class: "rds-free", sizes: []int64{2, 5, 64}, dttls: []int64{-1, 0, 3}, nkeys: 5, minLen: 6, maxLen: 24,
+	pRdsFree = profile{pAlias: 0.2, class: "rds-free", sizes: []int64{2, 5, 64}, dttls: []int64{-1, 0, 3}, nkeys: 5, minLen: 6, maxLen: 24,
 		ttls: []int64{-3, 0, 1, 2, 5, tmax, tmax + 1, 1 << 40, math.MaxInt64}, upds: []int64{-2, 0, 1, 4, tmax + 1}, pTTL: 0.6, pMne: 0.3, pKeep: 0.3, pRag: 0.2, pUpd: 0.35,
 		wSet: 45, wGet: 42, wR: 8, wC: 5, pStay: 0.35, pDeadline: 0.45, starts: []int64{0, 100}}
 )
@@ -1145,6 +1225,37 @@ func enumMem(emit func(*histSpec)) {
 						emit(&histSpec{Kind: "mem", Class: "mem-enum", Size: size, Dttl: dttl, NKeys: 3, Segs: []seg{{Ops: ops}}, ProbeNow: t + 3})
 					}
 				}
+			}
+		}
+	}
+}
+
+// aliasEnum: the value slices of different keys share memory (a value read by Get and stored under another key, one
+// payload fanned out to several keys, values carved from one arena); then one of the keys is overwritten with a value
+// that fits the old capacity.  A value-semantics cache answers every other key as before.
+func aliasEnum(emit func(*histSpec)) {
+	for _, kind := range []string{"mem", "rds"} {
+		for _, size := range []int64{3, 8} {
+			for _, w := range []struct {
+				mne, keep bool
+				v2        int64
+			}{{false, false, 22}, {false, true, 7}, {false, false, 333}} {
+				t := int64(30)
+				ttl := func(o opSpec) opSpec { o.HasTTL, o.TTL = true, 40; return o }
+				// copy-then-overwrite (also: set-if-absent of a read value)
+				for _, mne := range []bool{false, true} {
+					ops := []opSpec{ttl(opSpec{Now: t, Kind: "S", K: 0, V: 11}), {Now: t, Kind: "G", K: 0}, ttl(opSpec{Now: t, Kind: "S", K: 1, Src: "g", Mne: mne}),
+						ttl(opSpec{Now: t + 1, Kind: "S", K: 0, V: w.v2, Keep: w.keep}), {Now: t + 1, Kind: "G", K: 1}, {Now: t + 1, Kind: "G", K: 0}}
+					emit(&histSpec{Kind: kind, Class: kind + "-alias", Size: size, Dttl: 9, NKeys: 3, Segs: []seg{{Ops: ops}}, ProbeNow: t + 2})
+				}
+				// fan-out of one payload, then one of the keys is rewritten
+				ops := []opSpec{ttl(opSpec{Now: t, Kind: "S", K: 0, V: 41, Src: "p"}), ttl(opSpec{Now: t, Kind: "S", K: 1, Src: "p"}), ttl(opSpec{Now: t, Kind: "S", K: 2, Src: "p"}),
+					ttl(opSpec{Now: t + 1, Kind: "S", K: 1, V: w.v2, Keep: w.keep}), {Now: t + 1, Kind: "G", K: 0}, {Now: t + 1, Kind: "G", K: 2}, {Now: t + 1, Kind: "G", K: 1}}
+				emit(&histSpec{Kind: kind, Class: kind + "-alias", Size: size, Dttl: 9, NKeys: 3, Segs: []seg{{Ops: ops}}, ProbeNow: t + 2})
+				// values carved from one arena: the rewritten value is longer and still fits the spare capacity
+				ops = []opSpec{ttl(opSpec{Now: t, Kind: "S", K: 0, V: 12, Src: "c"}), ttl(opSpec{Now: t, Kind: "S", K: 1, V: 34, Src: "c"}), ttl(opSpec{Now: t, Kind: "S", K: 2, V: 56, Src: "c"}),
+					ttl(opSpec{Now: t + 1, Kind: "S", K: 0, V: w.v2 * 10, Keep: w.keep}), {Now: t + 1, Kind: "G", K: 1}, {Now: t + 1, Kind: "G", K: 2}, {Now: t + 1, Kind: "G", K: 0}}
+				emit(&histSpec{Kind: kind, Class: kind + "-alias", Size: size, Dttl: 9, NKeys: 3, Segs: []seg{{Ops: ops}}, ProbeNow: t + 2})
 			}
 		}
 	}
@@ -1448,6 +1559,9 @@ func main() {
 		if want("rds-enum") {
 			enumRds(e, emit)
 		}
+		if want("mem-alias") || want("rds-alias") {
+			aliasEnum(emit)
+		}
 		for _, pv := range []struct {
 			p *profile
 			n int
@@ -1513,7 +1627,7 @@ func main() {
 			}
 		}
 		e.Meta["key_names"] = keyNames
-		e.Meta["classes"] = "mem-enum (exhaustive deadline-1/0/+1 x every operation kind x size 0..2), mem-mixed, mem-lru, mem-expiry, mem-odd (out-of-domain ttls / sizes / clocks), mem-race (goroutines racing on one key), rds-enum, rds-restricted, rds-free, mem-remove-vs-reset (callers hammering Remove / Remove+Set on one key, then a deterministic history at quiescence), rds-shared (redis shared with many foreign keys: SCAN takes several pages, some without own keys), rds-race (callers racing on one key of the redis adapter, commands interleaved by the fake), mem-exh (thorough: all 3-step sequences over 16 letters)"
+		e.Meta["classes"] = "mem-enum (exhaustive deadline-1/0/+1 x every operation kind x size 0..2), mem-mixed, mem-lru, mem-expiry, mem-odd (out-of-domain ttls / sizes / clocks), mem-race (goroutines racing on one key), rds-enum, rds-restricted, rds-free, mem-alias / rds-alias (value slices shared between keys: a Get result stored under another key, one payload for several keys, values carved from one arena - then an overwrite; random classes hand over such slices with probability 0.2-0.3), mem-remove-vs-reset (callers hammering Remove / Remove+Set on one key, then a deterministic history at quiescence), rds-shared (redis shared with many foreign keys: SCAN takes several pages, some without own keys), rds-race (callers racing on one key of the redis adapter, commands interleaved by the fake), mem-exh (thorough: all 3-step sequences over 16 letters)"
 	})
 }
 
